@@ -118,8 +118,9 @@ func universes(thorough bool) []*universe {
 		{"p443-k1-ip0", mkSvc(ports(443), share("k1"), lbIP("10.0.0.0"))},
 		{"p443-k1-clusterip", mkSvc(ports(443), share("k1"), clusterIPType())},
 		{"p80udp-k1", mkSvc(ports(), udp(80), share("k1"))},
+		{"p443-k1-clusterip-statuswiped", mkSvc(ports(443), share("k1"), clusterIPType())},
 	}
-	shareSlotVs := map[int][]int{2: {0, 2, 7, 9}}
+	shareSlotVs := map[int][]int{2: {0, 2, 7, 9}, 1: {0, 1, 2, 3, 4, 5, 6, 7, 8, 9, 10, 11, 12}}
 	if thorough {
 		shareSlotVs = nil
 	}
@@ -200,6 +201,25 @@ func universes(thorough bool) []*universe {
 		{mkPool("dual2", []string{"fc00::/127", "10.0.0.0/31"}, nil)},
 		{mkPool("v4only", []string{"10.0.0.0/32"}, nil), mkPool("dual1", []string{"10.0.1.0/32", "fc00::/128"}, nil)},
 		{mkPool("bigv6", []string{"fc00::/64", "fc00:1::/127", "10.0.0.0/32"}, nil)},
+		{ // two pinned single-family pools of different priority, and an unpinned dual one
+			mkPool("gold-v4-prio1", []string{"10.1.0.0/31"}, func(p *metallbv1beta1.IPAddressPool) {
+				p.Spec.AllocateTo = &metallbv1beta1.ServiceAllocation{Priority: 1, Namespaces: []string{"ns1"}}
+			}),
+			mkPool("silver-v4-prio2", []string{"10.2.0.0/31"}, func(p *metallbv1beta1.IPAddressPool) {
+				p.Spec.AllocateTo = &metallbv1beta1.ServiceAllocation{Priority: 2, Namespaces: []string{"ns1"}}
+			}),
+		},
+		{ // a better-priority single-family pool and a worse-priority dual-stack one
+			mkPool("gold-v4-prio1", []string{"10.1.0.0/31"}, func(p *metallbv1beta1.IPAddressPool) {
+				p.Spec.AllocateTo = &metallbv1beta1.ServiceAllocation{Priority: 1, Namespaces: []string{"ns1"}}
+			}),
+			mkPool("silver-dual-prio2", []string{"10.2.0.0/32", "fc00:2::/128"}, func(p *metallbv1beta1.IPAddressPool) {
+				p.Spec.AllocateTo = &metallbv1beta1.ServiceAllocation{Priority: 2, Namespaces: []string{"ns1"}}
+			}),
+			mkPool("bronze-v6-prio3", []string{"fc00:3::/127"}, func(p *metallbv1beta1.IPAddressPool) {
+				p.Spec.AllocateTo = &metallbv1beta1.ServiceAllocation{Priority: 3, Namespaces: []string{"ns1"}}
+			}),
+		},
 	}
 	dualVs := []namedVariant{
 		{"single4", mkSvc()},
@@ -238,7 +258,23 @@ func universes(thorough bool) []*universe {
 		{"pool=a", mkSvc(annot(AnnotationAddressPool, "a"))},
 		{"ip1", mkSvc(lbIP("10.0.0.1"), share("k1"), ports(8080))},
 		{"clusterip", mkSvc(clusterIPType())},
+		{"clusterip-statuswiped", mkSvc(clusterIPType())},
 	}
+	// ---- U-restart: crash stores written by hand (richer than what depth 3 reaches from an empty cluster) ----
+	restartVs := []namedVariant{{"auto", mkSvc()}, {"auto-k1-443", mkSvc(ports(443), share("k1"))}, {"ip1", mkSvc(lbIP("10.0.0.1"))}, {"clusterip", mkSvc(clusterIPType())}, {"prefer46", mkSvc(families(v1.IPFamilyPolicyPreferDualStack, "192.168.9.1", "fd00::1"))}}
+	restartLayouts := [][]metallbv1beta1.IPAddressPool{
+		{mkPool("a", []string{"10.0.0.0/30"}, nil)},
+		{mkPool("b", []string{"10.0.0.0/30"}, nil)},
+		{mkPool("a", []string{"10.0.0.0/31"}, nil)},
+	}
+	slots3 := []slotT{{"ns1", "s1"}, {"ns1", "s2"}, {"ns1", "s3"}}
+	r1 := mkUniverse("restart-stale-annotation+pending", ns12[:1], [][]metallbv1beta1.IPAddressPool{restartLayouts[2], restartLayouts[0], restartLayouts[1]}, slots3, restartVs, map[int][]int{0: {0, 3}, 1: {0, 1}, 2: {0, 2}})
+	r1.Preload = []preSvc{{0, 0, []string{"10.0.0.0"}, "renamed-pool"}, {1, 0, []string{"10.0.0.1"}, "a"}, {2, 0, nil, ""}}
+	us = append(us, r1)
+	r2 := mkUniverse("restart-full-pool+waiting", ns12[:1], [][]metallbv1beta1.IPAddressPool{restartLayouts[2], restartLayouts[0], {}}, slots3, restartVs, map[int][]int{0: {0, 1, 3}, 1: {0, 1}, 2: {0, 1}})
+	r2.Preload = []preSvc{{0, 0, []string{"10.0.0.0"}, "a"}, {1, 1, []string{"10.0.0.1"}, "a"}, {2, 0, nil, ""}}
+	us = append(us, r2)
+
 	us = append(us, mkUniverse("reconf", ns12, reLayouts, []slotT{{"ns1", "s1"}, {"ns1", "s2"}, {"ns2", "s3"}}, reVs, map[int][]int{2: {0, 2}}))
 	return us
 }
